@@ -44,7 +44,7 @@ func init() {
 }
 
 const (
-	dateForm     = "2006-02-01"
+	dateForm     = "2006-01-02"
 	binaryPrefix = "!binary:"
 	emptyPrefix  = "!empty"
 	nullPrefix   = "!null"
